@@ -32,7 +32,7 @@ ASSUMPTIONS = [
     'random.choice / numpy.random.binomial as used by the dividers are '
     'replaced by enumerating choosers for the duration of a case',
 ]
-BOUNDS = {'quick': {'generations': 2}, 'thorough': {'generations': 3}}
+BOUNDS = {'quick': {'generations': 2}, 'thorough': {'generations': 4}}
 
 
 PATTERN = (0, 1, 1, 0)     # call k answers outcome (0) or its opposite (1)
@@ -322,11 +322,15 @@ def run_case(job, acc):
     prev = rows_[-2][2] if len(rows_) >= 2 else None
     val = mk_value(case['value'])
     ext_val = val
+    mother_other = 5
     if generations > 1 and prev is not None:
         try:
             mnode = get(prev, home + (last_mother,))
             val = mnode['store']['v']
             ext_val = mnode['ext']['v']
+            # 'other' has the default (set) divider: the last mother
+            # passes on what SHE held (70 if her own birth overrode it)
+            mother_other = mnode['store']['other']
         except Exception:  # noqa
             pass
     got0 = agents[d0]['store']['v']
@@ -343,14 +347,14 @@ def run_case(job, acc):
             V('C11.value', 'split_dict-not-a-partition',
               f'mother {val} -> {got0} / {got1}')
     else:
-        w0, w1 = expected_pair(case, val, outcome)
+        w0, w1 = expected_pair(case, val, outcome, mother_other)
         alt = None
         if len(case['outcomes']) > 1 and generations == 1:
             # two variables (store/v, ext/v) are divided: one gets the
             # first draw, the other the second (opposite) draw
             opp = (not outcome) if isinstance(outcome, bool) else (
                 val - outcome)
-            alt = expected_pair(case, val, opp)
+            alt = expected_pair(case, val, opp, mother_other)
         ok_v = same(got0, w0) and same(got1, w1)
         ok_alt = alt is not None and same(got0, alt[0]) and same(
             got1, alt[1])
@@ -385,7 +389,7 @@ def run_case(job, acc):
               f'ext/v (declared by an outside glob port): mother {val} -> '
               f'{e0} / {e1}')
     else:
-        w0, w1 = expected_pair(case, ext_val, outcome)
+        w0, w1 = expected_pair(case, ext_val, outcome, mother_other)
         if case['divider'] == 'null':
             w0 = w1 = alt_default(mk_value(case['value']))
         ok_e = same(e0, w0) and same(e1, w1)
@@ -405,7 +409,7 @@ def run_case(job, acc):
               f'expected {w0!r} / {w1!r}')
     # overrides and defaults
     for i, d in enumerate((d0, d1)):
-        want_other = 70 + i if i in init_on else 5
+        want_other = 70 + i if i in init_on else mother_other
         if agents[d]['store']['other'] != want_other:
             V('C11.override', 'initial-state-or-default-wrong',
               f'daughter {d}: other={agents[d]["store"]["other"]}, '
@@ -447,13 +451,16 @@ def run_case(job, acc):
                     'daughters': {d0: repr(got0), d1: repr(got1)}})
 
 
-def expected_pair(case, val, outcome):
+def expected_pair(case, val, outcome, bonus=5):
     if case['expect'] == 'partition':
         items = list(val.items())
         return (dict(items[len(items) // 2:]), dict(items[:len(items) // 2]))
     w0, w1 = case['expect'](val, outcome)
     if isinstance(w0, str) and w0 == 'DEFAULT':
         w0 = w1 = mk_value(case['value'])
+    if case['label'] == 'user:dict' and bonus != 5:
+        # the divider's topology reads the mother's neighbour 'other'
+        w0 = w0 - 5 + bonus
     return w0, w1
 
 
@@ -622,6 +629,18 @@ def jobs(ctx):
             for g in range(2, gens + 1):
                 out.append((ci, outcome, (), True, 1, g))
                 out.append((ci, outcome, (1,), False, 1, g))
+                if not ctx.quick:
+                    for init_on in ((), (0,), (1,), (0, 1)):
+                        for copy_procs in (False, True):
+                            for depth in (1, 2):
+                                job = (ci, outcome, init_on, copy_procs,
+                                       depth, g)
+                                if job not in out[-20:]:
+                                    out.append(job)
+            if not ctx.quick:
+                for copy_procs in (False, True):
+                    for depth in (1, 2):
+                        out.append((ci, outcome, (1,), copy_procs, depth, 1))
     return out
 
 
